@@ -6,6 +6,7 @@ R04.2 ordering       each named challenge is squeezed after the absorptions it m
 R04.3 agreement      prover / native verifier / in-circuit verifier produce the same normalised transcript
 R04.4 sponge state   the duplex sponge invalidates buffered outputs on absorb and absorbs pending input before squeeze
 R04.5 layering       nothing outside iop::challenger touches the sponge state, except the grinding shortcut
+R04.6 wholeness      absorptions are neither truncated nor conditional on foreign data; digest encoders drop nothing
 """
 from . import flow, transcript, ob
 from .facts import parse_path, walk, callee, kids
@@ -222,6 +223,9 @@ def run_protocols(F, ck):
                 ck.ob('R04.1', 'absorbed:%s.%s:%s' % (proto, side, atom[2:]), ok, ('%s is never absorbed by %s' % (atom[2:], fn.qual)) if not ok else 'absorbed', '%s:%d' % (fn.file, fn.line))
             ck.floor('R04.1', 'required absorptions for %s.%s' % (proto, side), nreq, 20)
 
+    # ---------------------------------------------------------------- R04.6
+    whole_absorptions(F, ck, trs)
+
     # ---------------------------------------------------------------- R04.2
     for proto in SIDES:
         for side in ('V', 'C'):
@@ -301,6 +305,109 @@ def run_protocols(F, ck):
         ok, info = align(a2, b)
         ck.ob('R04.3', 'agree:batch_fri:V~P', ok, ('%d and %d events align' % (len(a2), len(b))) if ok else 'batch_fri_proof transcript diverges from Challenger::fri_challenges at %s / %s' % info, fc[0].file)
 
+
+
+DROPPING = ob.PARTIAL | {'chunks_exact', 'rchunks_exact', 'array_chunks', 'as_chunks', 'truncate', 'pop', 'drain'}
+
+
+def _root_local(n):
+    while isinstance(n, dict):
+        if n.get('k') == 'Local':
+            return n.get('n')
+        n = n.get('e') if n.get('k') in ('Field', 'Index', 'Ref', 'Un', 'Cast') else (n.get('r') if n.get('k') == 'MCall' else None)
+    return None
+
+
+def _partial_in(node, only_root=None):
+    """partial-iteration adaptors / sub-slices anywhere inside an expression (only_root: sub-slices count only when taken of
+    that variable - a sub-slice of a freshly zeroed local used as a copy destination drops nothing)"""
+    bad = []
+    for x in walk(node):
+        if x.get('k') == 'MCall' and x.get('n') in DROPPING:
+            bad.append(x['n'])
+        elif x.get('k') == 'Index' and x['i'].get('k') == 'Struct' and 'Range' in x['i'].get('d', ''):
+            if only_root is None or _root_local(x['e']) == only_root:
+                bad.append('[range]')
+    return bad
+
+
+def _own_condition(cond, deps):
+    """a condition that only asks whether the absorbed value itself is present (if let Some(cap) = &proof.cap {..})"""
+    mine = {a for a in flow.flat(deps) if a[:2] in ('F:', 'p:')}
+    for a in flow.flat(cond):
+        if a[:2] == 'p:':
+            if not any(m == a or m.startswith(a + '.') or m.startswith(a + '[') or a.startswith(m + '.') or a.startswith(m + '[') for m in mine if m[:2] == 'p:'):
+                return False
+        elif a[:2] == 'F:' and a not in mine:
+            # a parent struct of the absorbed field (proof_with_pis.proof) is part of the same access path
+            short = a[2:].split('.')[1]
+            if not any(('.' + short + '.') in m or m.endswith('.' + short) for m in mine if m[:2] == 'p:'):
+                return False
+    return True
+
+
+def whole_absorptions(F, ck, trs):
+    ck.rule('R04.6', 'absorptions are whole and unconditional: no absorbing loop ranges over a truncated sequence, no absorbed argument is a truncated view, each required field has an absorption that is conditional '
+                     'on nothing but the presence of that field itself, and the hash-output encoders used for absorption drop nothing')
+    n = 0
+    for (proto, side), (tev, fl, fn) in sorted(trs.items()):
+        seen = set()
+        for t in tev:
+            if t.kind != 'obs':
+                continue
+            bad = []
+            for fr in t.ctx:
+                if fr[0] == 'loop' and len(fr) > 3 and fr[3] is not None:
+                    bad += ob.is_partial_iter(fr[3])
+            for a in t.ev.node.get('a', []):
+                bad += _partial_in(a)
+            key = 'whole:%s.%s:%s:%s' % (proto, side, t.fn.name, t.method)
+            if key in seen and not bad:
+                continue
+            seen.add(key)
+            n += 1
+            ck.ob('R04.6', key, not bad, 'absorbs the whole value' if not bad else
+                  'TRUNCATED ABSORPTION in %s: %s absorbs a truncated sequence (%s): the remaining elements of the message do not influence any challenge' % (t.fn.qual, t.method, ','.join(bad)), t.loc)
+    ck.floor('R04.6', 'absorption sites examined', n, 30)
+    # required fields: at least one absorption not conditional on foreign data
+    for (proto, side), (tev, fl, fn) in sorted(trs.items()):
+        if side not in ('V', 'C'):
+            continue
+        for adt, skip, what in REQUIRED[proto][side]:
+            fields = leaf_fields(F, adt, skip) or []
+            short = adt.split('::')[-1]
+            for f in fields:
+                atom = 'F:%s.%s' % (short, f)
+                evs = [t for t in tev if t.kind == 'obs' and atom in t.deps]
+                if not evs:
+                    continue      # R04.1 reports it
+                free = None
+                foreign = None
+                for t in evs:
+                    conds = [fr for fr in t.ctx if fr[0] == 'if']
+                    bad = [fr for fr in conds if not _own_condition(fr[1], t.deps)]
+                    if not bad:
+                        free = t
+                        break
+                    foreign = (t, bad[0])
+                if free is None:
+                    t, fr = foreign
+                    ck.ob('R04.6', 'uncond:%s.%s:%s.%s' % (proto, side, short, f), False,
+                          'CONDITIONAL ABSORPTION: %s.%s is absorbed by %s only under a condition on %s: when the condition is false the message is not bound by any challenge' %
+                          (short, f, t.fn.qual, ', '.join(sorted(a[2:] for a in flow.flat(fr[1]) if a[:2] in ('F:', 'p:'))[:4])), t.loc)
+                else:
+                    ck.ob('R04.6', 'uncond:%s.%s:%s.%s' % (proto, side, short, f), True, 'absorbed unconditionally (or only conditional on its own presence)', free.loc)
+    # encoders
+    encs = []
+    for i in F.impls_of('GenericHashOut'):
+        for f in F.fns.values():
+            if f.raw.get('impl') == i['d'] and f.name in ('to_vec', 'to_bytes'):
+                encs.append(f)
+    ck.floor('R04.6', 'hash-output encoders (GenericHashOut::to_vec / to_bytes)', len(encs), 4)
+    for f in sorted(encs, key=lambda f: f.qual):
+        bad = _partial_in(f.body, only_root='self') if f.body is not None else []
+        ck.ob('R04.6', 'encoder:%s' % f.qual, not bad, 'encodes the whole digest' if not bad else
+              'LOSSY ENCODER: %s uses %s: part of the digest is dropped before absorption, so two different commitments produce the same challenges' % (f.qual, ','.join(bad)), '%s:%d' % (f.file, f.line))
 
 
 def field_ops(fn, field):
